@@ -37,13 +37,17 @@ class SameS(Spec):
 class StrSetS(Spec):
     """abstract collection of strings (list/set/dict keys) supporting `in`
     and truthiness"""
-    def __init__(self, name, known=(), nonempty=None):
+    def __init__(self, name, known=(), nonempty=None, known_not=(),
+                 maxlen=None):
         self.name = name
         self.known = known
+        self.known_not = known_not
+        self.maxlen = maxlen
         self.nonempty = nonempty
 
     def make(self, ex, st):
-        s = StrSet(self.name + '_%d' % sym.uid(), known=self.known)
+        s = StrSet(self.name + '_%d' % sym.uid(), known=self.known,
+                   known_not=self.known_not, maxlen=self.maxlen)
         return s
 
     def check(self, ex, st, v, label, line=0):
@@ -68,7 +72,10 @@ def nonempty_strlist(name):
 
 def LangSettingsS():
     return ObjS('yalafi.parameters.ParserLanguageSettings', {
-        'active_chars': StrSetS('active_chars'),
+        # table lemma (props: evaluated on the shipped settings): active
+        # characters are single characters and '%' is not one of them
+        'active_chars': StrSetS('active_chars', known_not=('%',),
+                                maxlen=1),
         'short_macros': DictS(StrS(name='shortmac'), 'short_macros'),
         'math_repl_inline': nonempty_strlist('repl_inline'),
         'math_repl_display': nonempty_strlist('repl_display'),
@@ -88,8 +95,18 @@ def ParmsS(scanner=None):
     rp = real_tables()
     V = PyDict('special_tokens')
     V.items = dict(rp.special_tokens)
-    acc = DictS(ListS(StrS(name='accname'), lambda n: zint(n) >= 1,
-                      'accnames'), 'accent_macros')
+    class _AccS(Spec):
+        def make(self, ex, st):
+            d = PyDict('accent_macros')
+            d.has = lambda ex_, st_, k: tm.is_accent(k)
+            val = ListS(StrS(name='accname'), lambda n: zint(n) >= 1,
+                        'accnames')
+            d.default_mk = lambda ex_, st_, k: val.make(ex_, st_)
+            return d
+
+        def check(self, ex, st, v, label, line=0):
+            pass
+    acc = _AccS()
     fields = {
         'mark_latex_error': StrS(name='mark'),
         'mark_latex_error_verbose': BoolS('verbose'),
